@@ -48,6 +48,7 @@ def check(c: Check):
     clause_k(c)
     clause_l(c)
     clause_m(c)
+    clause_n(c)
 
 
 # ------------------------------------------------------------------ shared: symbolic texts
@@ -1157,3 +1158,137 @@ def clause_m(c: Check):
                              'text returned may be shorter than the minimum asked for (equals then takes a proper '
                              'prefix for the whole text)' % (idx, list(range(k))), f.loc())
     c.floor('C05-m', 'paths of the prefix reader', n, 6)
+
+
+# ------------------------------------------------------------------ n: the strip variants, symbolically
+def clause_n(c: Check):
+    """EVAL over all texts of 0-3 lines: each variant of `strip` gives the documented text. The variant's function is
+    run as a generator over an *iterator* of symbolic lines (each `sym '\n'`, sym any string without new-line; the
+    last line also without final new-line). A test of a line against '\n' / '' forks and records whether the symbol
+    is empty; `isspace()` / `lstrip()` / `rstrip()` fork on whether a symbol is blank (empty or white space only)
+    and give `lstrip(sym)` / `rstrip(sym)` / `strip(sym)` of a symbol that is not. On every complete path the
+    concatenation of what is yielded must equal the input with - default: the blank lines and white space at both
+    ends, -trailing-space: those at the end, -trailing-new-lines: the new-lines (and empty lines) at the end -
+    removed, computed from the same facts."""
+    ix, fo = c.ix, c.fo
+    from ..absint import IterVal
+    M = ST + 'strip_space'
+    it0, p0, variants = _variant_setups(c, ix.cls(M + ':Parser'), 'C05-n')
+    fns = {}
+    for long, fv in variants:
+        for p in _run_funcval(it0, fv, p0.state):
+            con = util.constructed(ix, p.val) if p.kind == 'return' else None
+            v = con[3].get('transformer') if con is not None else None
+            d = v.fd if isinstance(v, FuncVal) else (v.v.d if isinstance(v, K) and isinstance(v.v, Ref) else None)
+            if isinstance(d, FuncDef):
+                fns[long] = d
+    c.require(set(fns) == {None, 'trailing-space', 'trailing-new-lines'}, 'C05-n: functions of the strip variants not found (%s)' % sorted(map(str, fns)))
+
+    class H(Hooks):
+        loop_bound = 5
+        symbolic_strings = True
+
+    def facts(p):
+        empty, nonempty, blank, nonblank = [], [], [], []
+        for e in p.trace:
+            if e.kind == 'str-empty':
+                empty += e.data
+                blank += e.data
+            elif e.kind == 'str-nonempty':
+                nonempty += e.data
+            elif e.kind == 'str-blank':
+                blank += e.data
+            elif e.kind == 'str-nonblank':
+                nonblank += e.data
+                nonempty += e.data
+        return empty, nonempty, blank, nonblank
+
+    def is_in(x, xs):
+        return any(x is y for y in xs)
+
+    def expected(variant, lines, f_):
+        """(parts, undecided symbol or None)"""
+        empty, nonempty, blank, nonblank = f_
+        whole = []
+        for l in lines:
+            whole.extend(l.parts)
+
+        def strip_end(parts, left, only_newlines):
+            parts = list(parts)
+            while parts:
+                t = parts[0] if left else parts[-1]
+                if isinstance(t, K):
+                    v_ = (t.v.lstrip('\n') if left else t.v.rstrip('\n')) if only_newlines else (t.v.lstrip() if left else t.v.rstrip())
+                    if v_:
+                        if left:
+                            parts[0] = K(v_)
+                        else:
+                            parts[-1] = K(v_)
+                        return parts, None
+                    parts.pop(0 if left else -1)
+                    continue
+                if only_newlines:
+                    if is_in(t, empty):
+                        parts.pop(0 if left else -1)
+                        continue
+                    if is_in(t, nonempty):
+                        return parts, None
+                    return parts, t
+                if is_in(t, blank):
+                    parts.pop(0 if left else -1)
+                    continue
+                if is_in(t, nonblank) or getattr(t, 'strip_base', None) is not None:
+                    d = interp_of_run._stripped(t, 'l' if left else 'r')
+                    if left:
+                        parts[0] = d
+                    else:
+                        parts[-1] = d
+                    return parts, None
+                return parts, t
+            return parts, None
+
+        und = None
+        if variant is None:
+            whole, und = strip_end(whole, True, False)
+        if und is None:
+            whole, und = strip_end(whole, False, variant == 'trailing-new-lines')
+        return whole, und
+
+    n = 0
+    for variant, fn in sorted(fns.items(), key=lambda kv: str(kv[0])):
+        vname = ('-' + variant) if variant else 'default'
+        for width in (0, 1, 2, 3):
+            for last_nl in ((True, False) if width else (True,)):
+                syms = [Sym('line%d' % i) for i in range(width)]
+                lines = [StrCat([s_, K('\n')]) for s_ in syms]
+                if width and not last_nl:
+                    lines[-1] = StrCat([syms[-1], K('x')])   # a last line that ends with something else than a new-line
+                interp_of_run = Interp(ix, fo, H())
+                for p in interp_of_run.run_function(fn, {fn.positional_params()[0].arg: IterVal(list(lines))}):
+                    if p.truncated:
+                        continue
+                    c.require(p.kind in ('return', 'normal'), 'C05-n: %s raises on a path' % fn.key)
+                    n += 1
+                    c.count()
+                    f_ = facts(p)
+                    ys = [e.data for e in p.trace if e.kind == 'yield']
+                    parts = []
+                    for y in ys:
+                        sc = y if isinstance(y, StrCat) else (StrCat([y]) if isinstance(y, K) and isinstance(y.v, str) else None)
+                        c.require(sc is not None, 'C05-n: a value yielded by %s is not a text (%s)' % (fn.name, util.describe(y)))
+                        parts.append(sc)
+                    got = StrCat(parts)
+                    want_parts, und = expected(variant, lines, f_)
+                    shape = '%d-lines%s' % (width, '' if last_nl else '-no-final-newline')
+                    pattern = ''.join('e' if is_in(s_, f_[0]) else 'b' if is_in(s_, f_[2]) else 'n' if is_in(s_, f_[3]) else
+                                      'x' if is_in(s_, f_[1]) else '?' for s_ in syms) or '-'
+                    if und is not None:
+                        c.bad('C05-n', 'strip/%s/%s/%s/undecided' % (vname, shape, pattern),
+                              'a path of %s ends without having looked at %s although the result depends on whether it '
+                              'is %s' % (fn.name, und.tag, 'empty' if variant == 'trailing-new-lines' else 'blank'), fn.loc())
+                        continue
+                    want = StrCat(want_parts)
+                    c.expect(got.key(f_[0]) == want.key(f_[0]), 'C05-n', 'strip/%s/%s/%s' % (vname, shape, pattern),
+                             'for a text of %d lines (e empty, b blank, n not blank, x not empty, ? not looked at: %s) strip '
+                             '%s gives %r (expected %r)' % (width, pattern, vname, got, want), fn.loc())
+    c.floor('C05-n', 'symbolic texts the strip variants are evaluated on', n, 40)
